@@ -2182,3 +2182,162 @@ Section EndToEnd.
       rewrite app_length. cbn [length]. replace (S (length arr') + 1 - 1)%nat with (S (length arr')) by lia. reflexivity.
   Qed.
 End EndToEnd.
+
+(* ================================================================================
+   13. every tiling, and the unfragmented frame
+   ================================================================================ *)
+
+(* EVERY cut of the compressed datagram into a FRAG1 that contains the compressed headers and FRAGN
+   pieces at 8-octet-aligned positions of the uncompressed datagram (not only the cut the own
+   fragmenter makes: any sender's) consists of pieces of D in the sense of the theorems above *)
+Theorem lp_tiles_are_pieces d lls lld ctx c D chdr uhdr tag :
+  lp_dgram_wf d lls lld -> lp_compressed d lls lld = Ok c -> lp_ipv6_bytes d = Ok D ->
+  lp_compressed_packet_size d lls lld = Ok (blen c, chdr, uhdr) ->
+  (forall k1, chdr <= k1 <= blen c ->
+     piece_ok D tag (mkRxFrag (SfFirst (blen D) tag) (firstn (Z.to_nat k1) c)
+                              (fun n => lp_sixlowpan_to_ipv6 ctx lls lld (firstn (Z.to_nat k1) c) (Some (blen D)) n))) /\
+  (forall p n dec, chdr <= p -> 0 <= n -> p + n <= blen c -> (p + (uhdr - chdr)) mod 8 = 0 ->
+     piece_ok D tag (mkRxFrag (SfNext (blen D) tag ((p + (uhdr - chdr)) / 8))
+                              (firstn (Z.to_nat n) (skipn (Z.to_nat p) c)) dec)).
+Proof.
+  intros Hwf Hc HD Hsz.
+  destruct (lp_compressed_packet_size_spec d lls lld c Hwf Hc) as (chdr' & uhdr' & Hsz' & Hh & Hcc & _ & _ & Hdiff).
+  rewrite Hsz in Hsz'. injection Hsz' as <- <-.
+  pose proof (lp_ipv6_bytes_len d lls lld D Hwf HD) as HDl.
+  destruct (lp_tails d lls lld c D chdr uhdr Hwf Hc HD Hsz) as (Pc & Pd & tail & Ec & ED & Lc & Ld).
+  assert (HlD : blen D = blen c + (uhdr - chdr)) by (rewrite Ec, ED, !blen_app; lia).
+  split.
+  - intros k1 Hk1. unfold piece_ok. cbn [rf_hdr rf_first_dec]. split; [reflexivity|]. split; [reflexivity|].
+    exists (firstn (Z.to_nat (k1 + (uhdr - chdr))) D).
+    assert (Hbl : blen (firstn (Z.to_nat (k1 + (uhdr - chdr))) D) = k1 + (uhdr - chdr)) by (apply blen_firstn; lia).
+    split; [|rewrite Hbl; split; [lia | reflexivity]].
+    intros n Hn.
+    pose proof (lp_decompress_prefix d lls lld ctx Hwf c D k1 (Some (blen D)) n Hc HD ltac:(right; reflexivity) Hn ltac:(lia)) as H.
+    replace (blen D - blen c) with (uhdr - chdr) in H by lia. apply H.
+    unfold lp_compressed_packet_size in Hsz. destruct Hwf as (Hr & _).
+    rewrite (iphc_buffer_len_spec _ Hr) in Hsz. cbn [obind] in Hsz.
+    destruct (ld_pl d); injection Hsz as _ <- _; lia.
+  - intros p n dec Hp Hn Hle Hal. unfold piece_ok. cbn [rf_hdr rf_payload].
+    assert (Hbl : blen (firstn (Z.to_nat n) (skipn (Z.to_nat p) c)) = n).
+    { rewrite blen_firstn; [reflexivity|]. rewrite blen_skipn by lia. lia. }
+    rewrite Hbl. replace ((p + (uhdr - chdr)) / 8 * 8) with (p + (uhdr - chdr)) by lia.
+    split; [reflexivity|]. split; [reflexivity|]. split; [lia|]. split; [lia|].
+    f_equal. rewrite Ec, ED.
+    replace (Z.to_nat p) with (Z.to_nat (p - chdr) + length Pc)%nat by (unfold blen in Lc; lia).
+    replace (Z.to_nat (p + (uhdr - chdr))) with (Z.to_nat (p - chdr) + length Pd)%nat by (unfold blen in Ld; lia).
+    rewrite <- !skipn_add. rewrite !skipn_app_exact by reflexivity. reflexivity.
+Qed.
+
+Lemma iphc_bytes_dispatch r rest : sixlowpan_dispatch (iphc_bytes r ++ rest) = Ok 1.
+Proof.
+  unfold iphc_bytes. destruct (iphc_src_mode _ _) as ((sac, sam), sb). destruct (iphc_dst_mode _ _) as ((m, dam), db).
+  cbn [app]. rewrite sixlowpan_dispatch_cons. unfold iphc_hdr0, iphc_nh_bit, iphc_hl_code.
+  destruct (ir_nh r); destruct (ir_hl r =? 255); destruct (ir_hl r =? 64); destruct (ir_hl r =? 1); vm_compute; reflexivity.
+Qed.
+
+(* E2E, unfragmented: a datagram whose compressed form fits one frame goes out as exactly that
+   frame, and the poll that receives it hands D to process_ipv6 *)
+Theorem lpl_e2e_unfragmented d lls lld ctx c D tag fill txfill timeout t ss :
+  lp_dgram_wf d lls lld -> lp_compressed d lls lld = Ok c -> lp_ipv6_bytes d = Ok D ->
+  0 <= fill < 256 ->
+  lpf_needs_frag (blen c) (lpf_ieee_len (lpl_ll_bytes lld) (lpl_ll_bytes lls)) = false ->
+  lpl_tx_octets d lls lld tag fill txfill = Ok [c] /\
+  lpl_poll ctx timeout (mkArrival t lls lld c) ss = Ok (lpf_remove_expired t ss, Some D).
+Proof.
+  intros Hwf Hc HD Hf Hneed.
+  destruct (lp_compressed_packet_size_spec d lls lld c Hwf Hc) as (chdr & uhdr & Hsz & Hh & Hcc & _ & Hu48 & Hdiff).
+  pose proof (lp_ipv6_bytes_len d lls lld D Hwf HD) as HDl. pose proof (blen_nonneg c) as Hcn.
+  assert (Hsmall : blen D <= lp_MAX_DECOMPRESSED_LEN).
+  { unfold lpf_needs_frag in Hneed. rewrite Z.gtb_ltb in Hneed. apply Z.ltb_ge in Hneed.
+    unfold lpf_ieee_len in Hneed. pose proof (blen_nonneg (lpl_ll_bytes lld)). pose proof (blen_nonneg (lpl_ll_bytes lls)).
+    unfold lpf_MAX_FRAME in Hneed. zfold_in Hneed. unfold lp_MAX_DECOMPRESSED_LEN. zfold. unfold lp_IPV6_HDR in *. lia. }
+  split.
+  - unfold lpl_tx_octets, lp_dispatch. rewrite Hsz. cbn [obind]. rewrite Hneed.
+    rewrite (lp_ipv6_to_sixlowpan_spec d lls lld c _ Hwf Hc (bytes_ok_repeat fill _ Hf)) by (rewrite blen_repeat; lia).
+    cbn [obind]. rewrite skipn_all2 by (rewrite repeat_length; unfold blen; lia). rewrite app_nil_r.
+    cbn [lpl_frames_octets lpl_frame_octets fr_hdr fr_payload obind]. reflexivity.
+  - unfold lpl_poll, lp_process_sixlowpan. cbn [ar_time ar_lls ar_lld ar_payload].
+    assert (Hd : sixlowpan_dispatch c = Ok 1).
+    { unfold lp_compressed in Hc. destruct (ld_pl d).
+      - obind_inv Hc. injection Hc as <-. apply iphc_bytes_dispatch.
+      - injection Hc as <-. apply iphc_bytes_dispatch. }
+    rewrite Hd. replace (1 =? 0) with false by reflexivity.
+    assert (Hrb : blen c <= blen (repeat 0 (Z.to_nat (blen c)))) by (rewrite blen_repeat; lia).
+    rewrite (proj2 (lp_roundtrip d lls lld ctx c D (repeat 0 (Z.to_nat (blen c))) lp_MAX_DECOMPRESSED_LEN Hwf Hc HD
+                      (bytes_ok_repeat 0 _ ltac:(lia)) Hrb Hsmall)).
+    reflexivity.
+Qed.
+
+(* ================================================================================
+   14. non-vacuity: a concrete out-of-order arrival with a duplicate and foreign traffic
+   ================================================================================ *)
+
+Definition lpl_ex_D : list Z := map Z.of_nat (seq 0 56).
+Definition lpl_ex_src : list Z := [1; 2].
+Definition lpl_ex_dst : list Z := [3; 4].
+Definition lpl_ex_f1 : lpf_rx_frag := mkRxFrag (SfFirst 56 7) [] (fun _ => Ok (firstn 24 lpl_ex_D)).
+Definition lpl_ex_f2 : lpf_rx_frag := mkRxFrag (SfNext 56 7 3) (firstn 16 (skipn 24 lpl_ex_D)) (fun _ => Err 0).
+Definition lpl_ex_f3 : lpf_rx_frag := mkRxFrag (SfNext 56 7 5) (skipn 40 lpl_ex_D) (fun _ => Err 0).
+(* a fragment of another datagram (other tag) *)
+Definition lpl_ex_g : lpf_rx_frag := mkRxFrag (SfNext 64 9 1) [0; 0; 0; 0; 0; 0; 0; 0] (fun _ => Err 0).
+Definition lpl_ex_pre : list lpl_ev :=
+  [EvFrag 0 lpl_ex_src lpl_ex_dst lpl_ex_f3; EvOther 5 None; EvFrag 10 lpl_ex_src lpl_ex_dst lpl_ex_f1;
+   EvFrag 12 lpl_ex_src lpl_ex_dst lpl_ex_g; EvFrag 15 lpl_ex_src lpl_ex_dst lpl_ex_f3].
+Definition lpl_ex_a : lpl_ev := EvFrag 20 lpl_ex_src lpl_ex_dst lpl_ex_f2.
+Definition lpl_ex_k : lpf_key := (lpl_ex_src, lpl_ex_dst, blen lpl_ex_D, 7).
+
+(* the model run: nothing, nothing, nothing, nothing (no free slot for the foreign fragment), nothing
+   (duplicate), then exactly D *)
+Lemma lpl_example_run :
+  omap snd (ev_run 60000 (lpl_ex_pre ++ [lpl_ex_a]) lpf_slots_new) = Ok [None; None; None; None; None; Some lpl_ex_D].
+Proof. vm_compute. reflexivity. Qed.
+
+(* ... and it is an instance of the delivery theorem: all its hypotheses hold *)
+Lemma lpl_example_hyps :
+  lpf_IPV6_HDR <= blen lpl_ex_D /\
+  kstate lpl_ex_D lpl_ex_k lpf_slots_new None /\
+  Forall (ev_ok lpl_ex_D lpl_ex_k 7) (lpl_ex_pre ++ [lpl_ex_a]) /\
+  ev_is lpl_ex_k (hd lpl_ex_a lpl_ex_pre) /\
+  (exists j, (j < length lpf_slots_new)%nat /\ slot_avail (ev_time (hd lpl_ex_a lpl_ex_pre)) (nth j lpf_slots_new lpf_slot_new)) /\
+  Forall (fun e => ev_time e <= ev_time (hd lpl_ex_a lpl_ex_pre) + 60000) (lpl_ex_pre ++ [lpl_ex_a]) /\
+  gaps_fit lpf_N lpl_ex_D lpl_ex_k asm_new (lpl_ex_pre ++ [lpl_ex_a]) /\
+  ev_is lpl_ex_k lpl_ex_a /\ k_complete lpl_ex_D lpl_ex_k (lpl_ex_pre ++ [lpl_ex_a]) /\
+  ~ k_complete lpl_ex_D lpl_ex_k lpl_ex_pre.
+Proof.
+  assert (Hok : Forall (ev_ok lpl_ex_D lpl_ex_k 7) (lpl_ex_pre ++ [lpl_ex_a])).
+  { assert (P3 : piece_ok lpl_ex_D 7 lpl_ex_f3).
+    { unfold piece_ok. cbn [rf_hdr lpl_ex_f3 rf_payload]. repeat split; try (vm_compute; congruence). }
+    assert (P2 : piece_ok lpl_ex_D 7 lpl_ex_f2).
+    { unfold piece_ok. cbn [rf_hdr lpl_ex_f2 rf_payload]. repeat split; try (vm_compute; congruence). }
+    assert (P1 : piece_ok lpl_ex_D 7 lpl_ex_f1).
+    { unfold piece_ok. cbn [rf_hdr lpl_ex_f1 rf_first_dec]. split; [reflexivity|]. split; [reflexivity|].
+      exists (firstn 24 lpl_ex_D). split; [intros; reflexivity|]. split; [vm_compute; congruence | reflexivity]. }
+    assert (K : forall t f, frag_key lpl_ex_src lpl_ex_dst f = lpl_ex_k -> piece_ok lpl_ex_D 7 f ->
+                ev_ok lpl_ex_D lpl_ex_k 7 (EvFrag t lpl_ex_src lpl_ex_dst f)).
+    { intros t f Hk Hp. split; [intros _; exact Hp | intros Hne; contradiction]. }
+    unfold lpl_ex_pre, lpl_ex_a. cbn [app]. repeat (apply Forall_cons); try apply Forall_nil.
+    - apply K; [vm_compute; reflexivity | exact P3].
+    - exact I.
+    - apply K; [vm_compute; reflexivity | exact P1].
+    - split; [intros Hk; vm_compute in Hk; discriminate Hk|]. intros _. unfold frag_tame. cbn [rf_hdr lpl_ex_g]. lia.
+    - apply K; [vm_compute; reflexivity | exact P3].
+    - apply K; [vm_compute; reflexivity | exact P2]. }
+  split; [vm_compute; congruence|]. split; [apply kstate_new|]. split; [exact Hok|].
+  split; [reflexivity|].
+  split; [exists 0%nat; split; [vm_compute; lia | left; reflexivity]|].
+  split; [unfold lpl_ex_pre, lpl_ex_a; cbn [app hd ev_time]; repeat (apply Forall_cons; [cbn [ev_time]; lia|]); apply Forall_nil|].
+  split; [vm_compute; repeat split; congruence|].
+  split; [reflexivity|].
+  split.
+  - apply (k_complete_kacc lpl_ex_D 7 lpl_ex_k _ Hok).
+    split; [vm_compute; reflexivity|].
+    assert (E : kacc lpl_ex_D lpl_ex_k asm_new (lpl_ex_pre ++ [lpl_ex_a]) = [mkContig 0 56]) by (vm_compute; reflexivity).
+    rewrite E. intros x Hx. apply tracked_amem. cbn [amem c_hole c_data]. unfold c_total. cbn [c_hole c_data].
+    change (blen lpl_ex_D) with 56 in Hx. lia.
+  - intros Hc.
+    assert (Hokp : Forall (ev_ok lpl_ex_D lpl_ex_k 7) lpl_ex_pre) by (apply Forall_app in Hok; tauto).
+    apply (k_complete_kacc lpl_ex_D 7 lpl_ex_k _ Hokp) in Hc. destruct Hc as (_ & Hf).
+    assert (E : kacc lpl_ex_D lpl_ex_k asm_new lpl_ex_pre = [mkContig 0 24; mkContig 16 16]) by (vm_compute; reflexivity).
+    rewrite E in Hf. specialize (Hf 30 ltac:(change (blen lpl_ex_D) with 56; lia)).
+    apply tracked_amem in Hf. cbn [amem c_hole c_data] in Hf. unfold c_total in Hf. cbn [c_hole c_data] in Hf. lia.
+Qed.
